@@ -245,6 +245,7 @@ pub fn run(ctx: &mut Ctx) {
     let thorough = ctx.tier == Tier::Thorough;
     ctx.rule = "(a) exhaustive: every word of length <= 3 (quick, 4 regions) / <= 4 (thorough, 9 regions) over a 14-letter event alphabet (silent uplink; FOpts together with a port-0 payload; garbage+foreign frame; confirmed downlink; plan narrowed to one channel in the upper half of the table; requests that would empty the plan; data-rate/channel mismatch + DlChannelReq; six queued answers after a bit-flipped frame; replay + oversize; join with CFList; join with wrong-key then all-ones DLSettings/raw CFList in RX2; join timeout; 100 silent uplinks; highest uplink DR) x {nb, async, async+ClassC} x {OTAA, ABP}, each followed by 3 silent uplinks and an answered one; (b) field sweeps: for every handled MAC command every value of every field (LinkADRReq: all 256 DR/TXPower bytes x all 256 Redundancy bytes x mask patterns; RXParamSetupReq: all 256 DLSettings x frequency set; RXTimingSetupReq/TXParamSetupReq/DutyCycleReq: all 256; authentic frames of every shape incl. FOpts together with a port-0 payload and commands on ports 224/255; NewChannelReq: all 256 indices x frequency set x DrRange bytes; DlChannelReq: all 256 indices x frequency set; JoinAccept: all 256 DLSettings x RxDelay 0..15 x CFList classes), in FOpts and in port-0 payload, RX1 and RX2, OTAA and ABP, each followed by 3 silent uplinks and one uplink with an authentic downlink; (b2) plans that shrink under a mask (a mask naming a freshly created channel and one other index, then the removal of that channel, in one or two downlinks; every index pair, dynamic plans); (d) join walks: US915/AU915 x every sub-band bias x 1..9 (non-compliant) retries x front-ends, 150..300 unanswered join attempts followed by a successful join and traffic; (c) proptest random histories up to 12 steps mixing every frame recipe incl. >= 90-uplink silences and re-joins; regions x {nb, async, async+ClassC}. Oracle: no panic (catch_unwind), no hang (RNG draw budget per call), joined device still hands frames to the radio. Non-trivial: history with >= 1 authentic downlink carrying MAC commands or a valid JoinAccept that the reference model says is processed; distinct by hash".into();
     ctx.assumptions = vec![
+        "non-termination has two detectors: the RNG draw budget per API call (10 000 draws; a rejection-sampling loop without an accepted value) and the non-termination monitor (a step or selector enumeration that stays open for 20 s of wall-clock time while its thread burns 10 s of CPU: a loop that draws no random numbers); both produce a replayable history".into(),
         "application inputs stay inside what the API documents: region-defined uplink data rates, port 0 only with empty data, payload <= 242 bytes; everything received is unrestricted".into(),
         "a rejection-sampling loop that draws more than 20000 random numbers in one API call is reported as a hang".into(),
     ];
